@@ -6,16 +6,18 @@
    The window / in-flight pair is the one the endpoint published last for the path (recovery_metrics), advanced by the
    endpoint's own sends since.  Multi-path phases are skipped (per-path attribution of sends is not published). *)
 EXTENDS Naturals, Sequences, TLC, TraceLib
-VARIABLES l, cw, inflight, allowance, paths, ccflag, known, sentAt, lostSince, lastRed, mtuChanged, cubic, maxMtu
-gvars == <<l, cw, inflight, allowance, paths, ccflag, known, sentAt, lostSince, lastRed, mtuChanged, cubic, maxMtu>>
-rvars == <<sentAt, lostSince, lastRed, mtuChanged, cubic, maxMtu>>
+CONSTANT KnownF17
+VARIABLES l, cw, inflight, allowance, paths, ccflag, known, sentAt, lostSince, lastRed, mtuChanged, cubic, maxMtu,
+          ackedAfter   \* a packet sent after the last shrink has been acknowledged since (the recovery period is over)
+gvars == <<l, cw, inflight, allowance, paths, ccflag, known, sentAt, lostSince, lastRed, mtuChanged, cubic, maxMtu, ackedAfter>>
+rvars == <<sentAt, lostSince, lastRed, mtuChanged, cubic, maxMtu, ackedAfter>>
 None == 0 - 1
 IsEvent(e) == l <= NRec /\ Rec[l].ev = e /\ l' = l + 1
-TInit == l = 1 /\ cw = 0 /\ inflight = 0 /\ allowance = FALSE /\ paths = 1 /\ ccflag = <<>> /\ known = FALSE /\ sentAt = <<>> /\ lostSince = {} /\ lastRed = None /\ mtuChanged = FALSE /\ cubic = TRUE /\ maxMtu = 1500
+TInit == l = 1 /\ cw = 0 /\ inflight = 0 /\ allowance = FALSE /\ paths = 1 /\ ccflag = <<>> /\ known = FALSE /\ sentAt = <<>> /\ lostSince = {} /\ lastRed = None /\ mtuChanged = FALSE /\ cubic = TRUE /\ maxMtu = 1500 /\ ackedAfter = FALSE
 \* one endpoint per view: its congestion controller and largest datagram size come from the scenario
 EpOf == IF NRec >= 2 /\ "ep" \in DOMAIN Rec[2] THEN Rec[2].ep ELSE "c"
 T_Reset == IsEvent("reset") /\ cw' = 0 /\ inflight' = 0 /\ allowance' = FALSE /\ paths' = 1 /\ ccflag' = <<>> /\ known' = FALSE
-           /\ sentAt' = <<>> /\ lostSince' = {} /\ lastRed' = None /\ mtuChanged' = FALSE
+           /\ sentAt' = <<>> /\ lostSince' = {} /\ lastRed' = None /\ mtuChanged' = FALSE /\ ackedAfter' = FALSE
            /\ LET sc == Rec[l].sc IN cubic' = (sc.c.cc = "cubic" /\ sc.s.cc = "cubic") /\ maxMtu' = (IF sc.c.max_mtu >= sc.s.max_mtu THEN sc.c.max_mtu ELSE sc.s.max_mtu)
 Key(r) == <<r.sp, r.pn>>
 T_TxP == IsEvent("txp") /\ LET r == Rec[l] IN
@@ -24,19 +26,27 @@ T_TxP == IsEvent("txp") /\ LET r == Rec[l] IN
 T_Metrics == IsEvent("metrics") /\ LET r == Rec[l] IN
            IF r.path = 0 THEN
              /\ cw' = r.cwnd /\ inflight' = r.bif /\ known' = TRUE /\ UNCHANGED <<allowance, paths, ccflag, sentAt, cubic, maxMtu>>
+             /\ ackedAfter' = (IF known /\ r.cwnd < cw /\ ~mtuChanged THEN FALSE ELSE ackedAfter)
              \* CUBIC shrinks its window at most once per round trip: a shrink needs the loss of a packet that was sent AFTER the
              \* previous shrink (RFC 9002 7.3.1 / B.6: losses of packets sent before the recovery period began do not start a new
              \* one).  Not judged: multi-path phases, MTU changes (the window is rescaled), the collapse to the minimum window
              \* (persistent congestion), ECN.
              /\ (cubic /\ known /\ paths = 1 /\ ~mtuChanged /\ r.cwnd < cw /\ r.cwnd > 2 * maxMtu /\ lastRed # None /\ lostSince # {}) =>
-                   (\E pn \in lostSince : pn \notin DOMAIN sentAt \/ sentAt[pn] > lastRed)
+                   \/ (\E pn \in lostSince : pn \notin DOMAIN sentAt \/ sentAt[pn] > lastRed)
+                   \* known finding F17: once a packet sent after the shrink has been acknowledged the controller has left its
+                   \* Recovery state, and then the loss of ANY packet - also one sent before that shrink - shrinks the window
+                   \* again (cubic.rs on_congestion_event looks at the state only, not at when the lost packet was sent)
+                   \/ (KnownF17 /\ ackedAfter /\ PrintT(<<"KNOWN-FINDING", "F17">>))
              /\ lastRed' = (IF known /\ r.cwnd < cw /\ ~mtuChanged THEN r.t ELSE lastRed)
              /\ lostSince' = {} /\ mtuChanged' = FALSE
            ELSE paths' = 2 /\ UNCHANGED <<cw, inflight, allowance, ccflag, known, rvars>>
 T_Path == IsEvent("active_path") /\ paths' = 2 /\ UNCHANGED <<cw, inflight, allowance, ccflag, known, rvars>>
 T_Lost == IsEvent("packet_lost") /\ allowance' = TRUE /\ lostSince' = (IF Rec[l].sp = "a" THEN lostSince \cup {Rec[l].pn} ELSE lostSince)
-          /\ UNCHANGED <<cw, inflight, paths, ccflag, known, sentAt, lastRed, mtuChanged, cubic, maxMtu>>
-T_Mtu == IsEvent("mtu_updated") /\ mtuChanged' = TRUE /\ UNCHANGED <<cw, inflight, allowance, paths, ccflag, known, sentAt, lostSince, lastRed, cubic, maxMtu>>
+          /\ UNCHANGED <<cw, inflight, paths, ccflag, known, sentAt, lastRed, mtuChanged, cubic, maxMtu, ackedAfter>>
+T_Ack == IsEvent("ack_range") /\ LET r == Rec[l] IN
+           ackedAfter' = (ackedAfter \/ (r.sp = "a" /\ lastRed # None /\ \E pn \in DOMAIN sentAt : pn >= r.lo /\ pn <= r.hi /\ sentAt[pn] > lastRed))
+           /\ UNCHANGED <<cw, inflight, allowance, paths, ccflag, known, sentAt, lostSince, lastRed, mtuChanged, cubic, maxMtu>>
+T_Mtu == IsEvent("mtu_updated") /\ mtuChanged' = TRUE /\ UNCHANGED <<cw, inflight, allowance, paths, ccflag, known, sentAt, lostSince, lastRed, cubic, maxMtu, ackedAfter>>
 T_Cong == IsEvent("congestion") /\ allowance' = TRUE /\ UNCHANGED <<cw, inflight, paths, ccflag, known, rvars>>
 T_Sent == IsEvent("packet_sent") /\ LET r == Rec[l]
                                        cc == IF Key(r) \in DOMAIN ccflag THEN ccflag[Key(r)] ELSE FALSE IN
@@ -45,7 +55,7 @@ T_Sent == IsEvent("packet_sent") /\ LET r == Rec[l]
            /\ allowance' = (IF cc THEN FALSE ELSE allowance)
            /\ ccflag' = [k \in DOMAIN ccflag \ {Key(r)} |-> ccflag[k]]
            /\ sentAt' = (IF r.sp = "a" THEN [k \in DOMAIN sentAt \cup {r.pn} |-> IF k = r.pn THEN r.t ELSE sentAt[k]] ELSE sentAt)
-           /\ UNCHANGED <<cw, paths, known, lostSince, lastRed, mtuChanged, cubic, maxMtu>>
-TNext == T_Mtu \/ T_Reset \/ T_TxP \/ T_Metrics \/ T_Path \/ T_Lost \/ T_Cong \/ T_Sent
+           /\ UNCHANGED <<cw, paths, known, lostSince, lastRed, mtuChanged, cubic, maxMtu, ackedAfter>>
+TNext == T_Mtu \/ T_Reset \/ T_TxP \/ T_Metrics \/ T_Path \/ T_Lost \/ T_Cong \/ T_Sent \/ T_Ack
 TSpec == TInit /\ [][TNext]_gvars
 =============================================================================
